@@ -947,6 +947,8 @@ class VM:
                 values = list(iterable)
             elif isinstance(iterable, list):
                 values = list(iterable)
+            elif isinstance(iterable, JSTypedArray):
+                values = [iterable.get_index(i) for i in range(iterable.length)]
             else:
                 values = []
             self.stack.append(ForOfIterator(values))
